@@ -1,19 +1,76 @@
+import HcipyVerif.Driver.C01
+import HcipyVerif.Driver.C02
+import HcipyVerif.Driver.C03
+import HcipyVerif.Driver.C04
+import HcipyVerif.Driver.C05
+import HcipyVerif.Driver.C06
+import HcipyVerif.Driver.C07
+import HcipyVerif.Driver.C08
+import HcipyVerif.Driver.C09
+import HcipyVerif.Driver.C10
+import HcipyVerif.Driver.C11
+import HcipyVerif.Driver.C12
+import HcipyVerif.Driver.C13
+import HcipyVerif.Driver.C14
+import HcipyVerif.Driver.C15
+import HcipyVerif.Driver.C16
+import HcipyVerif.Driver.C17
+import HcipyVerif.Driver.C18
+import HcipyVerif.Driver.C19
 import HcipyVerif.Driver.C20
 
 /-!
 Line-protocol driver: one request per line (`Cxx op args…`), one response line per request.
 Lines starting with `#` are echoed.  Imports model files only (no Mathlib) so that it links as a
-native executable.
+native executable.  Each property owns `HcipyVerif/Driver/Cxx.lean` (`St`, `step`).
 -/
 open HcipyVerif.Driver
 
 structure DriverState where
+  c01 : C01.St := {}
+  c02 : C02.St := {}
+  c03 : C03.St := {}
+  c04 : C04.St := {}
+  c05 : C05.St := {}
+  c06 : C06.St := {}
+  c07 : C07.St := {}
+  c08 : C08.St := {}
+  c09 : C09.St := {}
+  c10 : C10.St := {}
+  c11 : C11.St := {}
+  c12 : C12.St := {}
+  c13 : C13.St := {}
+  c14 : C14.St := {}
+  c15 : C15.St := {}
+  c16 : C16.St := {}
+  c17 : C17.St := {}
+  c18 : C18.St := {}
+  c19 : C19.St := {}
   c20 : C20.St := {}
 
 def dispatch (st : DriverState) (line : String) : DriverState × String :=
   let toks := (line.trimAscii.toString.splitOn " ").filter (· ≠ "")
   match toks with
   | [] => (st, "bad-op")
+  | "C01" :: rest => let (s, o) := C01.step st.c01 rest; ({ st with c01 := s }, o)
+  | "C02" :: rest => let (s, o) := C02.step st.c02 rest; ({ st with c02 := s }, o)
+  | "C03" :: rest => let (s, o) := C03.step st.c03 rest; ({ st with c03 := s }, o)
+  | "C04" :: rest => let (s, o) := C04.step st.c04 rest; ({ st with c04 := s }, o)
+  | "C05" :: rest => let (s, o) := C05.step st.c05 rest; ({ st with c05 := s }, o)
+  | "C06" :: rest => let (s, o) := C06.step st.c06 rest; ({ st with c06 := s }, o)
+  | "C07" :: rest => let (s, o) := C07.step st.c07 rest; ({ st with c07 := s }, o)
+  | "C08" :: rest => let (s, o) := C08.step st.c08 rest; ({ st with c08 := s }, o)
+  | "C09" :: rest => let (s, o) := C09.step st.c09 rest; ({ st with c09 := s }, o)
+  | "C10" :: rest => let (s, o) := C10.step st.c10 rest; ({ st with c10 := s }, o)
+  | "C11" :: rest => let (s, o) := C11.step st.c11 rest; ({ st with c11 := s }, o)
+  | "C12" :: rest => let (s, o) := C12.step st.c12 rest; ({ st with c12 := s }, o)
+  | "C13" :: rest => let (s, o) := C13.step st.c13 rest; ({ st with c13 := s }, o)
+  | "C14" :: rest => let (s, o) := C14.step st.c14 rest; ({ st with c14 := s }, o)
+  | "C15" :: rest => let (s, o) := C15.step st.c15 rest; ({ st with c15 := s }, o)
+  | "C16" :: rest => let (s, o) := C16.step st.c16 rest; ({ st with c16 := s }, o)
+  | "C17" :: rest => let (s, o) := C17.step st.c17 rest; ({ st with c17 := s }, o)
+  | "C18" :: rest => let (s, o) := C18.step st.c18 rest; ({ st with c18 := s }, o)
+  | "C19" :: rest => let (s, o) := C19.step st.c19 rest; ({ st with c19 := s }, o)
   | "C20" :: rest => let (s, o) := C20.step st.c20 rest; ({ st with c20 := s }, o)
   | _ => (st, "bad-op")
 
